@@ -5,6 +5,7 @@
 import collections
 import hashlib
 import itertools
+import re
 import json
 import os
 import random
@@ -148,6 +149,17 @@ def oracle(res, ctx, name, truth, runs, hc, i):
                     st["covered-year-no-download"] += 1
         ca = ir["cache_after"]
         cache_before = {int(y): ({r[0] for r in rows} if isinstance(rows, list) else None) for y, rows in ca.items()}
+        # a CSV cache covers the days its FILE lists (whatever the reader makes of them later)
+        for y, text in (ir.get("cache_files") or {}).items():
+            if isinstance(text, str):
+                days = set()
+                for line in text.split("\n"):
+                    m_ = re.match(r"\s*(\d{4})-(\d{2})-(\d{2})\s*,", line)
+                    if m_:
+                        days.add(R.day(int(m_.group(1)), int(m_.group(2)), int(m_.group(3))))
+                if days:
+                    cache_before[int(y)] = (cache_before.get(int(y)) or set()) | days
+                    st["cache-files-read"] += 1
         st["downloads"] += len(ir["requests"])
         st["runs"] += 1
         st["lookups"] += len(run["lookups"])
